@@ -62,7 +62,12 @@ def panicFree : List String := [
   -- error channel itself: thread-local RefCell, never borrowed re-entrantly; Display of the stored
   -- error; a total `match` (T-codes); SourmashStr::free is `String::from_raw_parts` + drop
   ".with", ".borrow", ".borrow_mut", ".to_string", "SourmashErrorCode::from_error", ".free",
-  "set_panic_hook"
+  "set_panic_hook",
+  -- total `Option`/`Result` combinators and moves of std (a closure handed to one of them is written,
+  -- and therefore token-scanned, at the call site); `RefCell::replace`/`take` on the error slot borrow
+  -- it mutably for the duration of a move only — the same non-re-entrancy argument as `.borrow_mut`
+  ".as_ref", ".as_mut", ".as_deref", ".map", ".map_or", ".map_or_else", ".unwrap_or", ".unwrap_or_default",
+  ".unwrap_or_else", ".and_then", ".is_some", ".is_none", ".take", ".replace", "drop", "mem::take", "mem::replace"
 ]
 
 /-- callees that are total *in this export* (receiver- or contract-specific justification) -/
